@@ -454,6 +454,9 @@ def games(draw, kinds=KINDS, enc_kinds=ALL_ENC, regimes=REGIMES, max_teams=8, ma
         else:
             call["prelude"] = draw(failing.failing_specs(cfg))
     if extras and draw(st.integers(0, 7)) == 0:
+        # rate(teams, ranks, scores, tau, limit_sigma): the first 1-4 of them passed positionally (osk.rate)
+        call["positional"] = draw(st.integers(1, 4))
+    if extras and draw(st.integers(0, 7)) == 0:
         # distinct rating objects that share one id (deepcopy clones of a template with their own values): see osk.mk_teams
         call["clone_ids"] = draw(st.sampled_from(["all", "alternate"]))
     return {"cfg": cfg, "teams": teams, "call": call, "classes": classes, "meta": {"regime": regime, "enc": enc, **info}}
